@@ -143,7 +143,16 @@ def gen_unit(rng):
                  ('(set "index" 9 (map (indexed .arr) (+ .index :index)))', '(map (indexed .arr) (+ .index 9))'),
                  ('(set "value" 2 (map_values .obj (push [] . :value)))', '(map_values .obj (push [] . 2))'),
                  ('(set "value" [1] (map (indexed .strs) (push :value .value)))', '(map (indexed .strs) (push [1] .value))'),
-                 ('(define "value" (size .) (fold .arr 0 (+ (default .so_far 0) (default @value 0))))', '(fold .arr 0 (+ (default .so_far 0) (default (size .) 0)))')]
+                 ('(define "value" (size .) (fold .arr 0 (+ (default .so_far 0) (default @value 0))))', '(fold .arr 0 (+ (default .so_far 0) (default (size .) 0)))'),
+                 # the callbacks of the other list / object functions see the caller's bindings, too
+                 ('(set "n" -1 (sort_by .arr (* . :n)))', "(sort_by .arr (* . -1))"), ('(define "neg" (* . -1) (order_by .arr @neg))', "(order_by .arr (* . -1))"),
+                 ('(set "k" 2 (group_by .arr (stringify (% . :k))))', "(group_by .arr (stringify (% . 2)))"), ('(set "m" 1 (filter .arr (> . :m)))', "(filter .arr (> . 1))"),
+                 ('(set "p" "x" (map_keys .obj (concat :p .)))', '(map_keys .obj (concat "x" .))'), ('(set "m" 1 (filter_values .obj (> . :m)))', "(filter_values .obj (> . 1))"),
+                 ('(set "m" "a" (filter_keys .obj (= . :m)))', '(filter_keys .obj (= . "a"))'), ('(set "m" 1 (flat_map .arr (push [] . :m)))', "(flat_map .arr (push [] . 1))"),
+                 ('(set "n" -1 (sort_by_values_by .obj (* . :n)))', "(sort_by_values_by .obj (* . -1))"),
+                 # a name is the string it is: blanks at its ends belong to it
+                 ('(set " n" 5 (: " n"))', "5"), ('(set "n " 6 (get_variable "n "))', "6"), ('(define "add a " (push [] .i) (@ "add a "))', "(push [] .i)"),
+                 ('(set "n" 1 (set " n" 2 (push [] (: " n") (: "n"))))', "(push [] 2 1)")]
         if rng.random() < 0.5:
             u["pre"] = ["--set", "index=3", "--set", "@index=(size .)", "--set", "@twin=(+ 1 1)", "--set", "twin=\"t\""]
             rng.shuffle(u["pre"]) if False else None
